@@ -66,6 +66,7 @@ def main():
             det["%s/%s/seed%d" % (c, tier, sd)] = {"exit": rc, "violation_classes": classes[:12], "wall_s": round(time.time() - t0, 1)}
             print(c, tier, "seed", sd, "exit", rc, classes[:6])
     res["our_checks"] = det
+    shutil.rmtree("/verif/tmp/bin-trial/" + re.sub(r"[^A-Za-z0-9\n]", "_", wt), ignore_errors=True)
     res["detected"] = any(v["exit"] == 1 for v in det.values())
     # 4. store
     dst = "/verif/seeded/%s" % sid
